@@ -1,3 +1,4 @@
-import Hostd.Proto
-/-- stub driver for the `revenue` engine; replaced when the engine is built -/
-def main : IO Unit := IO.println "STATS lines=0 flagged=0"
+import Hostd.Drive.Revenue
+open Hostd
+def main : IO Unit := do
+  Proto.loop (← IO.getStdin) ({} : Drive.Revenue.DState) Drive.Revenue.step Drive.Revenue.stats
